@@ -21,10 +21,10 @@ def stripNul (s : List Nat) : List Nat := if s.getLast? = some 0 then s.dropLast
     which is not an optional parameter of the message object -/
 def readBack (tag : Nat) (val : List Nat) : Option Tlv :=
   if tag = Gen.Tlv.messagePayload then none
-  else match (tagInfo tag).1 with
-    | 0 => if val.length = 1 ∨ val.length = 2 ∨ val.length = 4 then some ⟨tag, .int (beVal val)⟩ else none
-    | 2 => if val = [] then some ⟨tag, .bool true⟩ else none
-    | _ => if val.all (· < 128) then some ⟨tag, .str (stripNul val)⟩ else none
+  else if (tagInfo tag).1 = 0 then
+    (if val.length = 1 ∨ val.length = 2 ∨ val.length = 4 then some ⟨tag, .int (beVal val)⟩ else none)
+  else if (tagInfo tag).1 = 2 then (if val = [] then some ⟨tag, .bool true⟩ else none)
+  else (if val.all (· < 128) then some ⟨tag, .str (stripNul val)⟩ else none)
 
 /-- a parameter the loop reads back as `t` -/
 def ParamOK (p : Nat × List Nat) (t : Tlv) : Prop :=
@@ -38,9 +38,9 @@ theorem cur_int {buf : List Nat} {i n : Nat} {val post : List Nat} (c : Cur buf 
   unfold getInt
   rw [if_pos hn]
   unfold unpackU
-  have : pre.length + n ≤ (pre ++ (val ++ post)).length := by simp [hl]; omega
+  have : pre.length + n ≤ (pre ++ (val ++ post)).length := by simp [hl]
   rw [if_pos this, List.drop_left]
-  have : (val ++ post).take n = val := by rw [← hl]; simp
+  have : (val ++ post).take n = val := List.take_left' hl
   rw [this]
   rfl
 
@@ -59,23 +59,22 @@ theorem split_be (x : Nat) (h : x < 65536) : x / 256 * 256 + x % 256 = x := by o
 
 /-- THE TLV LOOP on conformant parameters: every parameter is read back, in order, and the message text found
     before is left alone. -/
-theorem tlvLoop_wire (esm : Nat) (codec : Codec) : ∀ (ps : List (Nat × List Nat)) (ts : List Tlv),
-    List.Forall₂ ParamOK ps ts →
+theorem tlvLoop_wire (esm : Nat) (codec : Codec) (g : Nat × List Nat → Tlv) : ∀ (ps : List (Nat × List Nat)),
+    (∀ p ∈ ps, ParamOK p (g p)) →
     ∀ (buf : List Nat) (i fuel : Nat) (payload : List Nat) (acc : List Tlv),
       Cur buf i (wire ps) → ps.length < fuel →
-      tlvLoop buf buf.length esm codec fuel i payload acc = .ok (payload, acc ++ ts)
-  | [], _, h, buf, i, fuel, payload, acc, c, hf => by
-    cases h
+      tlvLoop buf buf.length esm codec fuel i payload acc = .ok (payload, acc ++ ps.map g)
+  | [], _, buf, i, fuel, payload, acc, c, hf => by
     have hend := cur_end c
     cases fuel with
     | zero => simp at hf
     | succ f =>
       rw [tlvLoop, if_neg (by omega)]
       simp
-  | p :: ps, _, h, buf, i, fuel, payload, acc, c, hf => by
-    cases h with
-    | cons hp hrest =>
-      rename_i t ts
+  | p :: ps, h, buf, i, fuel, payload, acc, c, hf => by
+      have hp := h p (by simp)
+      have hrest : ∀ q ∈ ps, ParamOK q (g q) := fun q hq => h q (by simp [hq])
+      generalize hgp : g p = t at hp
       obtain ⟨tag, val⟩ := p
       obtain ⟨htag, hlen, hrb⟩ := hp
       dsimp only at htag hlen hrb
@@ -102,57 +101,134 @@ theorem tlvLoop_wire (esm : Nat) (codec : Codec) : ∀ (ps : List (Nat × List N
         · rw [if_neg hmp] at hrb
           rw [if_neg hmp]
           -- by kind
-          rcases hk : (tagInfo tag).1 with _ | _ | _ | k
-          · -- integer
-            rw [hk] at hrb
-            dsimp only at hrb ⊢
+          by_cases h0 : (tagInfo tag).1 = 0
+          · rw [if_pos h0] at hrb
+            rw [h0]
             split at hrb
             · rename_i hw
               cases hrb
               obtain ⟨r3, c3⟩ := cur_int c2 rfl hw
               rw [r3]
               dsimp only
-              have := tlvLoop_wire esm codec ps ts hrest buf _ f payload (acc ++ [⟨tag, .int (beVal val)⟩]) c3 hf'
+              have := tlvLoop_wire esm codec g ps hrest buf _ f payload (acc ++ [⟨tag, .int (beVal val)⟩]) c3 hf'
               rw [this]
-              simp
+              simp [hgp]
             · cases hrb
-          · -- string (kind 1)
-            rw [hk] at hrb
-            dsimp only at hrb ⊢
-            split at hrb
-            · rename_i ha
-              cases hrb
-              obtain ⟨r3, c3⟩ := cur_octets c2 ha
-              rw [r3]
-              dsimp only
-              have := tlvLoop_wire esm codec ps ts hrest buf _ f payload (acc ++ [⟨tag, .str (stripNul val)⟩]) c3 hf'
-              rw [this]
-              simp
-            · cases hrb
-          · -- flag
-            rw [hk] at hrb
-            dsimp only at hrb ⊢
-            split at hrb
-            · rename_i hv
-              cases hrb
-              subst hv
-              have c3 : Cur buf (i + 2 + 2) (wire ps) := by simpa using c2
-              have := tlvLoop_wire esm codec ps ts hrest buf _ f payload (acc ++ [⟨tag, .bool true⟩]) c3 hf'
-              rw [this]
-              simp
-            · cases hrb
-          · -- any other kind is read as a string
-            rw [hk] at hrb
-            dsimp only at hrb ⊢
-            split at hrb
-            · rename_i ha
-              cases hrb
-              obtain ⟨r3, c3⟩ := cur_octets c2 ha
-              rw [r3]
-              dsimp only
-              have := tlvLoop_wire esm codec ps ts hrest buf _ f payload (acc ++ [⟨tag, .str (stripNul val)⟩]) c3 hf'
-              rw [this]
-              simp
-            · cases hrb
+          · rw [if_neg h0] at hrb
+            by_cases h2 : (tagInfo tag).1 = 2
+            · rw [if_pos h2] at hrb
+              rw [h2]
+              split at hrb
+              · rename_i hv
+                cases hrb
+                subst hv
+                have c3 : Cur buf (i + 2 + 2) (wire ps) := by simpa using c2
+                have := tlvLoop_wire esm codec g ps hrest buf _ f payload (acc ++ [⟨tag, .bool true⟩]) c3 hf'
+                rw [this]
+                simp [hgp]
+              · cases hrb
+            · rw [if_neg h2] at hrb
+              split at hrb
+              · rename_i ha
+                cases hrb
+                obtain ⟨r3, c3⟩ := cur_octets c2 ha
+                have := tlvLoop_wire esm codec g ps hrest buf _ f payload (acc ++ [⟨tag, .str (stripNul val)⟩]) c3 hf'
+                rcases hk : (tagInfo tag).1 with _ | _ | _ | k
+                · exact absurd hk h0
+                · simp only [r3, this]
+                  simp [hgp]
+                · exact absurd hk h2
+                · simp only [r3, this]
+                  simp [hgp]
+              · cases hrb
+
+theorem wire_length_ge : ∀ (ps : List (Nat × List Nat)), ps.length ≤ (wire ps).length
+  | [] => by simp [wire]
+  | p :: ps => by
+    have := wire_length_ge ps
+    simp only [wire, tlvWire, List.length_cons, List.length_append]
+    omega
+
+/-- MANDATORY FIELDS AND OPTIONAL PARAMETERS READ BACK, text in short_message: `from_pdu` on a body laid out as the
+    specification prescribes, followed by any list of conformant optional parameters, returns the field values and
+    the parameters it was built from. -/
+theorem smFromPdu_short_params (hd : List Nat) (h16 : hd.length = 16) (h : Header) (dflt enc : Enc)
+    (svc : List Nat) (ston snpi : Nat) (snum : List Nat) (dton dnpi : Nat) (dnum : List Nat)
+    (esm pid prio : Nat) (sched valid : List Nat) (reg repl dc defId : Nat) (sm text : List Nat)
+    (schedT validT : Time.TimeObj) (ps : List (Nat × List Nat)) (g : Nat × List Nat → Tlv)
+    (hps : ∀ p ∈ ps, ParamOK p (g p))
+    (w : FieldsOK svc ston snpi snum dton dnpi dnum sched valid)
+    (henc : (if dc = 0 then Except.ok dflt else encOfDataCoding dc) = .ok enc)
+    (hdm : decodeMessage esm (decodeCodec enc) sm = .ok (text, []))
+    (hts : Time.fromSmpp sched = .ok schedT) (htv : Time.fromSmpp valid = .ok validT)
+    (hsvc : svc.length ≤ 5) (htext : text ≠ [])
+    (hlen : h.pduLength = (hd ++ mandatory svc ston snpi snum dton dnpi dnum esm pid prio sched valid reg repl dc defId sm (wire ps)).length) :
+    smFromPdu (hd ++ mandatory svc ston snpi snum dton dnpi dnum esm pid prio sched valid reg repl dc defId sm (wire ps)) h dflt =
+      .ok { seq := h.seq, status := 0, shortMessage := text,
+            source := ⟨snum, ston, snpi⟩, dest := ⟨dnum, dton, dnpi⟩, serviceType := svc,
+            esmClass := esm, protocolId := pid, priorityFlag := prio, schedule := schedT, validity := validT,
+            registeredDelivery := reg, replaceIfPresent := repl,
+            encoding := if enc.name = str Gen.Consts.defaultEncoding then none else some enc,
+            smDefaultMsgId := defId, messagePayload := [], optionalParams := ps.map g } := by
+  have c0 := cur_start hd (mandatory svc ston snpi snum dton dnpi dnum esm pid prio sched valid reg repl dc defId sm (wire ps))
+  rw [h16] at c0
+  generalize hbuf : hd ++ mandatory svc ston snpi snum dton dnpi dnum esm pid prio sched valid reg repl dc defId sm (wire ps) = buf at *
+  unfold mandatory at c0
+  obtain ⟨r1, c1⟩ := cur_cstr c0 w.svc
+  obtain ⟨r2, c2⟩ := cur_int1 c1
+  obtain ⟨r3, c3⟩ := cur_int1 c2
+  obtain ⟨r4, c4⟩ := cur_cstr c3 w.snum.1
+  obtain ⟨r5, c5⟩ := cur_int1 c4
+  obtain ⟨r6, c6⟩ := cur_int1 c5
+  obtain ⟨r7, c7⟩ := cur_cstr c6 w.dnum.1
+  obtain ⟨r8, c8⟩ := cur_int1 c7
+  obtain ⟨r9, c9⟩ := cur_int1 c8
+  obtain ⟨r10, c10⟩ := cur_int1 c9
+  obtain ⟨r11, c11⟩ := cur_cstr c10 w.sched
+  obtain ⟨r12, c12⟩ := cur_cstr c11 w.valid
+  obtain ⟨r13, c13⟩ := cur_int1 c12
+  obtain ⟨r14, c14⟩ := cur_int1 c13
+  obtain ⟨r15, c15⟩ := cur_int1 c14
+  obtain ⟨r16, c16⟩ := cur_int1 c15
+  obtain ⟨r17, c17⟩ := cur_int1 c16
+  obtain ⟨hsl, c18⟩ := cur_slice c17
+  unfold smFromPdu
+  simp only [bind, Except.bind, pure, Except.pure]
+  rw [r1]; simp only
+  rw [r2]; simp only [enumVal, w.ston, if_true]
+  rw [r3]; simp only [w.snpi, if_true]
+  rw [r4]; simp only [checkLen, w.snum.2, if_true]
+  rw [r5]; simp only [w.dton, if_true]
+  rw [r6]; simp only [w.dnpi, if_true]
+  rw [r7]; simp only [w.dnum.2, if_true]
+  rw [r8]; simp only
+  rw [r9]; simp only
+  rw [r10]; simp only
+  rw [r11]; simp only
+  rw [r12]; simp only
+  rw [r13]; simp only
+  rw [r14]; simp only
+  rw [r15]; simp only
+  rw [henc]; simp only
+  rw [r16]; simp only
+  rw [r17]; simp only
+  rw [hsl, hdm]; simp only
+  -- the optional parameters
+  have hbl : h.pduLength = buf.length := hlen
+  have hfuel : ps.length < buf.length + 1 := by
+    obtain ⟨pre, hb, _⟩ := c18
+    have := wire_length_ge ps
+    rw [hb, List.length_append]; omega
+  rw [hbl, tlvLoop_wire esm (decodeCodec enc) g ps hps buf _ (buf.length + 1) [] [] c18 hfuel]
+  simp only
+  rw [hts, htv]
+  simp only [smValidate]
+  have h5 : ¬ svc.length > 5 := by omega
+  have hte : text.isEmpty = false := by
+    cases text with
+    | nil => exact absurd rfl htext
+    | cons _ _ => rfl
+  simp [h5, hte]
+
 
 end SmppVerif.Lemmas.TlvRead
